@@ -46,6 +46,7 @@ Definition run_tunnel (u : str) (hs : list (str * str)) : sexp :=
   match parse_url (fun _ => None) u with
   | Some pu =>
       match Url.host pu with
+      | Some [] => SL [SN 1; SN 1]            (* connection_from_host: LocationValueError("No host specified.") *)
       | Some h =>
           s_result (connect_head (or_false Gen_Inject.tunnel_validates) (or_nil Gen_Inject.tunnel_host_illegal_chars)
                                  (or_nil Gen_Inject.method_allowed_chars) (or_nil Gen_Inject.tunnel_value_illegal_chars)
